@@ -82,6 +82,7 @@ def run(chk):
     # ---------------------------------------------------------------- flag accessors (Section::clear_flags ...)
     from lib import flagacc
     flagacc.run(chk)
+    flagacc.run_shared_flags(chk)
 
     return chk.finish(
         level="other",
